@@ -320,10 +320,11 @@ def check_formats(ctx, pr, tf, table, opens, closes):
     a, sep, b, f, node = pr.leaf
     pc = prog.func(PARSER + '._parse_check')
     splits = [c for c in ast.walk(pc.node) if isinstance(c, ast.Call)
-              and method_call(c, 'split') and U(method_call(c)[0]) ==
-              pc.params[0]]
+              and (method_call(c, 'split') or method_call(c, 'partition'))
+              and U(method_call(c)[0]) == pc.params[0]]
     sep_ok = bool(splits) and all(c.args and is_const(c.args[0], sep)
-                                  and is_const(kwarg(c, 'maxsplit', 1), 1)
+                                  and (method_call(c, 'partition') or
+                                       is_const(kwarg(c, 'maxsplit', 1), 1))
                                   for c in splits)
     order_ok = (a, b) == ('self.kind', 'self.match')
     ctx.ob('C15.FORMATS', sep_ok and order_ok, ctx.where(f.module, node),
